@@ -1,7 +1,7 @@
 (* Entry point of the executable model: one case (a [val]) in, one
    observation (a [val]) out.  The same function is extracted to OCaml
    (vv_eval) and re-evaluated on samples inside Coq by vm_compute. *)
-From VV Require Import Base.Bits Base.Rt Base.Val Gen.GenConsts Gen.GenLayout Gen.GenFns Spec.ValidityDec Spec.BeSpec Spec.FeSpec Spec.SessSpec Spec.ProxySpec Spec.DaemonSpec Spec.ShutSpec Spec.KernSpec Spec.RaceSpec Model.Transport Model.BeServer Model.Frontend Model.Proxy Model.Daemon Model.Shutdown Model.Race.
+From VV Require Import Base.Bits Base.Rt Base.Val Gen.GenConsts Gen.GenLayout Gen.GenFns Spec.ValidityDec Spec.BeSpec Spec.FeSpec Spec.SessSpec Spec.ProxySpec Spec.DaemonSpec Spec.ShutSpec Spec.KernSpec Spec.RaceSpec Spec.GpuSpec Model.Transport Model.BeServer Model.Frontend Model.Proxy Model.Daemon Model.Shutdown Model.Race Model.Gpu.
 Open Scope string_scope.
 Open Scope list_scope.
 Open Scope N_scope.
@@ -461,6 +461,24 @@ Definition run_kern_spec (args : list val) : val :=
   | _ => verror "args"
   end.
 
+(* ---- family "gpu": the GPU proxy ----  args: [VL steps]; step = VL [VS op; nums; VH data; fds; VL segments] *)
+Definition run_gpu (args : list val) : val :=
+  match args with
+  | [VL steps] =>
+      VL (map (fun st =>
+                 match st with
+                 | VL [VS op; nums; VH data; fds; VL segs] =>
+                     match val_NL nums, val_NL fds, all_some (map parse_seg segs) with
+                     | Some a, Some f, Some q =>
+                         let o := gpu_op op a (hex_bytes data) f q in
+                         VL [go_result o; VL (map (fun m => VL [vbytes (fst m); VL (map VN (snd m))]) (go_sent o))]
+                     | _, _, _ => verror "step"
+                     end
+                 | _ => verror "step"
+                 end) steps)
+  | _ => verror "args"
+  end.
+
 Definition run (c : val) : val :=
   match c with
   | VL (VS fam :: args) =>
@@ -473,6 +491,8 @@ Definition run (c : val) : val :=
       else if String.eqb fam "sess" then run_sess args
       else if String.eqb fam "tx" then run_tx args
       else if String.eqb fam "dmn" then run_dmn args
+      else if String.eqb fam "gpu" then run_gpu args
+      else if String.eqb fam "gpu-spec" then gpu_spec args
       else if String.eqb fam "conc" then
         (* a sequence of whole transactions: no overlap seen by the peer, every caller gets its own reply, all complete *)
         (match args with
